@@ -294,4 +294,58 @@ example : (step ⟨0, []⟩ (.on 1 (.start 200 none))).2 = [.sent 1 0] := by dec
 example : (advanceTo 20 (step ⟨0, []⟩ (.on 1 (.start 3000 none))).1 100000).2 =
     [.sent 1 3000, .sent 1 4600, .sent 1 6200, .sent 1 7800, .sent 1 9400, .sent 1 11000, .done 1 .allFailed 12600] := by decide
 
+/-! ### bounded termination -/
+
+/-- the table entry of one transaction after a series of timer firings with nothing else happening
+    to it (the clock value at each firing is arbitrary) -/
+def fireN (k : Nat) : List Nat → Option Tr → Option Tr
+  | [], o => o
+  | now :: ns, o => fireN k ns (react now k o .fire).1
+
+theorem fireN_none (k : Nat) : ∀ ns, fireN k ns none = none
+  | [] => rfl
+  | _ :: ns => by simpa [fireN, react] using fireN_none k ns
+
+/-- a new transaction starts with no firings counted -/
+theorem start_counts_zero (now k rto : Nat) (fa : Option Nat) (t : Tr)
+    (h : (react now k none (.start rto fa)).1 = some t) : t.nRtx = 0 ∧ t.key = k := by
+  simp only [react] at h
+  split at h
+  · cases h
+  · simp at h; subst h; exact ⟨rfl, rfl⟩
+
+/-- **never hangs**: an unanswered transaction leaves the table after at most `7 − nRtx` timer firings —
+    for every clock, every retransmission interval and whichever socket write fails (a failing write
+    only ends it sooner).  With `exactly_once` this is "every transaction completes". -/
+theorem fires_terminate (k : Nat) : ∀ (nows : List Nat) (t : Tr), t.nRtx < maxRtx →
+    maxRtx ≤ t.nRtx + nows.length → fireN k nows (some t) = none := by
+  intro nows
+  induction nows with
+  | nil => intro t h1 h2; simp at h2; omega
+  | cons now ns ih =>
+    intro t h1 h2
+    simp only [fireN, react]
+    split
+    · exact fireN_none k ns
+    · rename_i hne
+      split
+      · exact fireN_none k ns
+      · simp only [beq_iff_eq] at hne
+        exact ih _ (by simp only; omega) (by simp only [List.length_cons] at h2 ⊢; omega)
+
+/-- every timer of a live transaction is armed at most `max interval cap` ahead: with
+    `fires_terminate`, an unanswered transaction started with `rto` is over within
+    `rto + 6 · max rto cap` of its start when its timers fire on time. -/
+theorem fire_interval_bounded (now k : Nat) (t t' : Tr) (h : (react now k (some t) .fire).1 = some t') :
+    t'.fireAt = now + t'.interval ∧ t'.interval ≤ cap ∧ t'.nRtx = t.nRtx + 1 := by
+  simp only [react] at h
+  split at h
+  · cases h
+  · split at h
+    · cases h
+    · simp at h; subst h; exact ⟨rfl, Nat.min_le_right _ _, rfl⟩
+
+example : fireN 1 [200, 600, 1400, 3000, 4600, 6200, 7800] (react 0 1 none (.start 200 none)).1 = none := by decide
+example : fireN 1 [200, 600, 1400, 3000, 4600, 6200] (react 0 1 none (.start 200 none)).1 ≠ none := by decide
+
 end Turn.C12
